@@ -66,6 +66,7 @@ type exec struct {
 	names     map[fcmodel.Root]int
 	ever      map[fcmodel.Root]bool // roots that had a node at some point
 	maxID     int
+	leftover  map[fcmodel.Ref]bool // prunable nodes a failed sink left behind
 	inSweep   bool
 
 	votesAccepted, votesMoved, votesMovedBranch int
@@ -144,7 +145,7 @@ func Run(c *Case, o Options) *Result {
 		o.Known = func(string) bool { return false }
 	}
 	x := &exec{c: c, o: o, res: &Result{Tags: map[string]int{}, Excluded: map[string]int{}, FailOp: -1},
-		names: map[fcmodel.Root]int{}, ever: map[fcmodel.Root]bool{}}
+		names: map[fcmodel.Root]int{}, ever: map[fcmodel.Root]bool{}, leftover: map[fcmodel.Ref]bool{}}
 	f := x.run()
 	if f != nil {
 		if Owns(o.Prop, f.Sig) {
@@ -716,6 +717,24 @@ func (x *exec) tagUpdate(op *Op, plan *fcmodel.UpdatePlan, pinned, sinkFailed bo
 	}
 	if pinned {
 		x.tag("prune:while-pinned")
+	} else {
+		x.tag("prune:unpinned")
+	}
+	if x.c.Cfg.Sink == "nil" && len(plan.Prunable) > 0 {
+		x.tag("prune:nil-sink")
+	}
+	for _, r := range plan.Prunable {
+		if x.leftover[r] {
+			x.tag("prune:reports-leftovers-of-failed-prune")
+			break
+		}
+	}
+	if sinkFailed {
+		for _, r := range plan.Prunable {
+			if x.m.Has(r) {
+				x.leftover[r] = true
+			}
+		}
 	}
 	if len(plan.Prunable) == 0 {
 		x.tag("prune:nothing-to-prune")
